@@ -392,6 +392,10 @@ class Interp:
             return V.is_VCons(V.vl(v.t))
         if isinstance(v, MDict):
             return V.is_VCons(V.vd(v.t))
+        if isinstance(v, MSet):
+            return V.is_VCons(v.elems)           # a symbolic set is truthy iff it has a member
+        if isinstance(v, (V.PDict, V.PList, V.PSet)) and getattr(v, "m", None) is not None:
+            return self.truth(v.m)               # concrete container that switched to its symbolic form
         if isinstance(v, z3.BoolRef):
             return v
         if isinstance(v, Obj):
